@@ -12,6 +12,7 @@ inductive Err where
   | value          -- ValueError
   | key            -- KeyError
   | cmdline        -- CommandLineError → exit status 2
+  | template       -- InvalidTemplate raised while renaming (paired-end read ids differ after renaming)
 deriving Repr, BEq, DecidableEq, Inhabited
 
 inductive Action where
@@ -182,6 +183,23 @@ def renderTok (names : List String) (read : Read) (info : Info) : Tok → Except
   | .var "rc" => .ok (if info.isRc == some true then bytesOfStr "rc" else [])
   | .var "match_sequence" => .ok ((info.mts.getLast?.map AnyMatch.matchSequence).getD [])
   | .var _ => .error .key
+
+/-- `Renamer.variables` -/
+def renamerVariables : List String :=
+  ["header", "id", "comment", "cut_prefix", "cut_suffix", "adapter_name", "rc", "match_sequence"]
+
+/-- `PairedEndRenamer._get_allowed_variables()`: everything but `rc`, plus `rn`, plus `r1.`/`r2.` forms of everything but `id` and `rc` -/
+def pairedRenamerVariables : List String :=
+  let base := renamerVariables.filter (· != "rc")
+  let sub := renamerVariables.filter (fun v => v != "rc" && v != "id")
+  base ++ ["rn"] ++ sub.map ("r1." ++ ·) ++ sub.map ("r2." ++ ·)
+
+def tokVars (t : List Tok) : List String := t.filterMap fun | .var v => some v | .lit _ => none
+
+/-- `raise_if_invalid_variable`: every placeholder of the template is an allowed variable (otherwise `InvalidTemplate`, which
+    `cli.py` turns into a command-line error before any read is processed) -/
+def renameVarsOK (paired : Bool) (t : List Tok) : Bool :=
+  (tokVars t).all (fun v => (if paired then pairedRenamerVariables else renamerVariables).contains v)
 
 /-- names of the adapters of the cutter that filled `info.mts` (needed by `{name}` / `{adapter_name}`) -/
 abbrev Names := List String
